@@ -152,7 +152,9 @@ fn extreme_instant(r: &mut Rng) -> NaiveDateTime {
 }
 
 const HOSTILE_COORDS: [(f64, f64); 10] = [(90.0, 0.0), (-90.0, 0.0), (90.0, 180.0), (-90.0, -180.0), (0.0, 180.0), (0.0, -180.0), (89.999, 179.999), (66.6, 25.0), (-66.6, -60.0), (0.0, 0.0)];
-const GAP_ZONES: [&str; 8] = ["Pacific/Apia", "Australia/Lord_Howe", "Europe/Dublin", "America/St_Johns", "Asia/Kathmandu", "Africa/Monrovia", "Pacific/Kiritimati", "America/Sao_Paulo"];
+const GAP_ZONES: [&str; 10] = ["Pacific/Apia", "Australia/Lord_Howe", "Europe/Dublin", "America/St_Johns", "Asia/Kathmandu", "Africa/Monrovia", "Pacific/Kiritimati", "America/Sao_Paulo", "Pacific/Kwajalein", "Pacific/Fakaofo"];
+/// local days that do not exist at all (date-line changes) and other long gaps: (zone, UTC instant shortly before)
+const LONG_GAPS: [(&str, i32, u32, u32); 7] = [("Pacific/Apia", 2011, 12, 29), ("Pacific/Fakaofo", 2011, 12, 29), ("Pacific/Kwajalein", 1993, 8, 20), ("Pacific/Kiritimati", 1994, 12, 30), ("Pacific/Kanton", 1994, 12, 30), ("Asia/Manila", 1844, 12, 30), ("America/Juneau", 1867, 10, 18)];
 
 /// Everything the property lists, on one string. Err = violation message.
 pub fn check_string(text: &str, r: &mut Rng, rep: Option<&mut Report>) -> Result<bool, String> {
@@ -212,6 +214,16 @@ pub fn check_string_with(text: &str, r: &mut Rng, rep: Option<&mut Report>, unbo
                 }
             }
             1 => {
+                // a fifth of the zoned rounds sit right before a gap longer than a day
+                let (tz, t, to) = if r.chance(20) {
+                    let g = r.pick(&LONG_GAPS);
+                    let z: Tz = g.0.parse().unwrap_or(tz);
+                    let t = NaiveDate::from_ymd_opt(g.1, g.2, g.3).unwrap().and_hms_opt(r.below(24) as u32, r.below(60) as u32, 0).unwrap();
+                    (z, t, t + Duration::days(r.range(1, 4)))
+                } else {
+                    (tz, t, to)
+                };
+                let days = (to - t).num_days().max(0) as u64 + 2;
                 let mut ctx = Context::default().with_locale(TzLocation::new(tz));
                 if let Some(b) = bound {
                     ctx = ctx.approx_bound_interval_size(b);
